@@ -314,6 +314,133 @@ def check_state(spec, rung_levels, max_t, lives, obs, pend, dup, crit):
     return bad
 
 
+# ---------------------------------------------------------------------------------------------------
+# synchronous Hyperband + GP searcher: the 'resource > prev_level' guard
+# ---------------------------------------------------------------------------------------------------
+SYNC_PRELUDE = r"""
+Definition sync_case := (bool * bool * list (sync_ev * snapshot))%type.
+Definition diag_sync (c : sync_case) : Z := let '(all, mx, evs) := c in sync_diff all mx s_empty evs 0.
+Definition chk_sync (c : sync_case) : bool := diag_sync c =? -1.
+"""
+
+
+def gen_sync_spec(rng):
+    return dict(searcher_data=rng.choice(["rungs", "all"]), mode=rng.choice(["min", "max"]), ckpt=rng.random() < 0.5,
+                workers=rng.randint(2, 5), nops=rng.randint(25, 70), p_fail=rng.choice([0.0, 0.05, 0.1]),
+                seed=rng.randrange(2 ** 31))
+
+
+def run_sync_case(spec):
+    """SynchronousGeometricHyperbandScheduler + bayesopt driven as the tuner would; after every callback the searcher
+    state is read and checked: at most one observation per (trial, level), equal to the first value reported there;
+    levels: 'rungs' = the rung levels the jobs ran to, 'all' = every level; pending only for running trials at an
+    unobserved level."""
+    import random
+    from syne_tune.optimizer.schedulers.synchronous import SynchronousGeometricHyperbandScheduler
+    from syne_tune.config_space import uniform, randint
+    from syne_tune.backend.trial_status import Trial
+    rng = random.Random(spec["seed"])
+    cs = {"x": uniform(0.0, 1.0), "y": randint(0, 1000), "epochs": 9}
+    sink = io.StringIO()
+    with contextlib.redirect_stdout(sink), contextlib.redirect_stderr(sink):
+        sch = SynchronousGeometricHyperbandScheduler(
+            cs, metric="m", mode=spec["mode"], resource_attr="epoch", max_resource_attr="epochs", grace_period=1,
+            reduction_factor=3, searcher="bayesopt", searcher_data=spec["searcher_data"], random_seed=spec["seed"] % 10000,
+            search_options={"num_init_random": 10000, "debug_log": False})
+    t0 = datetime.datetime(2020, 1, 1)
+    trials, job, first, last_level, status = {}, {}, {}, {}, {}
+    events, snaps, problems = [], [], []
+    next_id = 0
+    exc = None
+
+    def crit(v):
+        return 1.0 - v if spec["mode"] == "max" else v
+
+    def check(label):
+        obs, pend, failed, dup = read_state(sch)
+        snaps.append((obs, pend, failed, None))
+        bad = []
+        if dup or len({(t, r) for t, r, _ in obs}) != len(obs):
+            bad.append(("duplicate_observation",))
+        for (t, r, c) in obs:
+            if (t, r) not in first:
+                bad.append(("observation_never_reported", t, r))
+            elif c != crit(first[(t, r)]):
+                bad.append(("observation_value_differs", t, r))
+        O = {}
+        for (t, r, _) in obs:
+            O.setdefault(t, set()).add(r)
+        for t in trials:
+            reported = {r for (tt, r) in first if tt == t}
+            reached = {ms for ms in job[t]["done_ms"]}
+            want = reported if spec["searcher_data"] == "all" else reached
+            if O.get(t, set()) != want:
+                bad.append(("levels_not_as_selected", spec["searcher_data"], t, sorted(O.get(t, set())), sorted(want)))
+        for (t, r) in pend:
+            if status.get(t) != "running":
+                bad.append(("pending_of_trial_not_running", t, r, status.get(t)))
+            elif r in O.get(t, set()):
+                bad.append(("pending_at_observed_level", t, r))
+        if bad:
+            problems.append((label, bad))
+
+    try:
+        for _ in range(spec["nops"]):
+            running = [t for t in trials if status[t] == "running"]
+            if len(running) < spec["workers"] and (not running or rng.random() < 0.4):
+                sug = sch.suggest(next_id)
+                if sug is None:
+                    break
+                ms = int(sug.config["epochs"])
+                if sug.spawn_new_trial_id:
+                    tid = next_id
+                    next_id += 1
+                    trials[tid] = Trial(trial_id=tid, config=sug.config, creation_time=t0)
+                    sch.on_trial_add(trials[tid])
+                    job[tid] = dict(ms=ms, prev=0, pos=0, done_ms=[])
+                    status[tid] = "running"
+                    events.append("YSuggest %s %s" % (zlit(tid), zlit(ms)))
+                    check(("suggest", tid))
+                else:
+                    tid = int(sug.checkpoint_trial_id)
+                    trials[tid] = Trial(trial_id=tid, config=sug.config, creation_time=t0)
+                    prev = job[tid]["ms"]
+                    job[tid].update(ms=ms, prev=prev, pos=prev if spec["ckpt"] else 0)
+                    status[tid] = "running"
+                continue
+            if not running:
+                continue
+            tid = rng.choice(running)
+            j = job[tid]
+            if rng.random() < spec["p_fail"]:
+                sch.on_trial_error(trials[tid])
+                status[tid] = "failed"
+                events.append("YFail %s" % zlit(tid))
+                check(("fail", tid))
+                continue
+            j["pos"] += 1
+            r = j["pos"]
+            v = rng.randint(1, 1023) / 1024.0
+            first.setdefault((tid, r), v)
+            d = sch.on_trial_result(trials[tid], {"m": v, "epoch": r})
+            if r == j["ms"]:
+                j["done_ms"].append(r)
+            events.append("YResult %s %s %s %s %s" % (zlit(tid), zlit(r), q(v), zlit(j["ms"]), zlit(j["prev"])))
+            if d != "CONTINUE":
+                sch.on_trial_remove(trials[tid])
+                status[tid] = "paused"
+            check(("report", tid, r))
+            if problems:
+                break
+    except Exception as e:
+        exc = "%s: %s" % (type(e).__name__, str(e)[:200])
+    n = min(len(events), len(snaps))
+    evs = ["(%s, %s)" % (events[i], coq_snapshot(snaps[i])) for i in range(n)]
+    term = "(%s, %s, %s)" % (blit(spec["searcher_data"] == "all"), blit(spec["mode"] == "max"), lst(evs) if evs else "[]")
+    return dict(term=term, problems=problems, exc=exc, nevents=n,
+                resumed_from_scratch=(not spec["ckpt"]) and any(x["prev"] > 0 for x in job.values()))
+
+
 def coq_config(spec, rung_levels, max_t):
     return ("{| rung_levels := %s; max_t := %d; pol := %s; myopic := %s; sty := %s; maximize := %s |}" % (
         lst([str(x) for x in rung_levels]), max_t, POLICY[spec["searcher_data"]], blit(spec["myopic"]),
@@ -326,7 +453,7 @@ def coq_snapshot(sn):
         lst(["((%s, %s), %s)" % (zlit(t), zlit(r), q(c)) for (t, r, c) in obs]) if obs else "[]",
         lst(["(%s, %s)" % (zlit(t), zlit(r)) for (t, r) in pend]) if pend else "[]",
         lst([zlit(t) for t in failed]) if failed else "[]",
-        "None" if d is None else "(Some %s)" % d)
+        "(@None decision)" if d is None else "(Some %s)" % d)
 
 
 def coq_case(spec, res):
@@ -348,7 +475,9 @@ def run(ctx, replay=None):
                 "contains at least one STOP/PAUSE decision and (a resume or a failure or a completion) or >= 2 trials "
                 "reporting at >= 3 levels; distinct by content hash of (spec, operations)")
     rng = ctx.rng
-    if replay is not None:
+    if replay is not None and replay.get("part") == "sync":
+        todo = []
+    elif replay is not None:
         todo = [(replay["spec"], replay.get("ops"))]
     else:
         todo = [(gen_spec(rng), None) for _ in range(ctx.n(260, 4000))]
@@ -393,6 +522,35 @@ def run(ctx, replay=None):
                 observations=res["snaps"][-1][0][:8], pending=res["snaps"][-1][1][:8], failed=res["snaps"][-1][2])))
         cases.append(coq_case(spec, res))
         meta.append(case)
+    # ---- synchronous Hyperband: the resource > prev_level guard -------------------------------------------
+    if replay is None or replay.get("part") == "sync":
+        sspecs = [replay["spec"]] if replay is not None else [gen_sync_spec(rng) for _ in range(ctx.n(40, 500))]
+        sterms, smeta = [], []
+        for sp in sspecs:
+            res = run_sync_case(sp)
+            scase = dict(part="sync", spec=sp)
+            ctx.count(scase, nontrivial=res["resumed_from_scratch"] or res["nevents"] >= 30)
+            ctx.traces_validated += 1
+            ctx.h("sync_searcher_data/mode", "%s/%s" % (sp["searcher_data"], sp["mode"]))
+            ctx.h("sync_rereport_after_resume", res["resumed_from_scratch"])
+            if res["exc"] is not None:
+                ctx.violation("property", "synchronous Hyperband raised %s" % res["exc"], case=scase,
+                              signature=dict(check="exception", type="synchronous", searcher_data=sp["searcher_data"]))
+            for (label, bad) in res["problems"]:
+                ctx.violation("property", "synchronous Hyperband, after %r the searcher state violates C14: %r" % (label, bad[:3]),
+                              case=scase, signature=dict(check=bad[0][0], type="synchronous", searcher_data=sp["searcher_data"]))
+            sterms.append(res["term"])
+            smeta.append(scase)
+        if sterms:
+            sbad = ctx.coq_bad_cases("sync", IMPORTS, SYNC_PRELUDE, "chk_sync", sterms, shard=20)
+            if sbad:
+                diag = ctx.coq_eval("syncdiag", IMPORTS, SYNC_PRELUDE, ["diag_sync (%s : sync_case)" % sterms[i] for i in sbad[:4]])
+                for i, d in zip(sbad[:4], diag):
+                    ctx.violation("correspondence", "model/SearcherData.v sync_step differs from SynchronousHyperbandScheduler + "
+                                  "searcher: sync_diff = %s" % d, case=smeta[i], failing_input=False,
+                                  broken="correspondence chk_sync (model/SearcherData.v sync_step)")
+    if replay is not None and replay.get("part") == "sync":
+        return
     if cases:
         bad = ctx.coq_bad_cases("seq", IMPORTS, PRELUDE, "chk_case", cases, shard=40)
         if bad:
